@@ -9,7 +9,7 @@ from ..runner import jdump
 from ..world import SEAM_KINDS, OUTPUT_SEAMS, SIMROOT
 from . import c07
 
-RUNS = {"quick": 900, "thorough": 30000}
+RUNS = {"quick": 1500, "thorough": 30000}
 DUP = {"quick": 32, "thorough": 256}
 WALL = {"quick": 1500, "thorough": 6 * 3600}
 RUN_TIMEOUT = {"quick": 600, "thorough": 900}
